@@ -61,17 +61,32 @@ def applyOne (r : Rendition) (p : Nat) : Rendition :=
 def setLayer (r : Rendition) (p : Nat) (c : TColor) : Rendition :=
   if p = 38 then { r with fg := some c } else { r with bg := some c }
 
+/-- Where the reader is inside an extended-colour parameter run (`38;5;n`, `38;2;r;g;b`). -/
+inductive Pend where
+  | none
+  | ext (layer : Nat)
+  | idx (layer : Nat)
+  | rgb1 (layer : Nat)
+  | rgb2 (layer r : Nat)
+  | rgb3 (layer r g : Nat)
+  deriving DecidableEq, Repr
+
 /-- Apply the parameters of one `CSI … m`, left to right. `38;5;n`, `38;2;r;g;b` (and 48)
-consume their arguments; a malformed extended colour ends the sequence. -/
-def applySgr (r : Rendition) : List Nat → Rendition
-  | [] => r
-  | p :: rest =>
-    if p = 38 ∨ p = 48 then
-      match rest with
-      | 5 :: n :: rest' => applySgr (setLayer r p (.idx n)) rest'
-      | 2 :: a :: b :: c :: rest' => applySgr (setLayer r p (.rgb a b c)) rest'
-      | _ => r
-    else applySgr (applyOne r p) rest
+consume their arguments; a malformed or truncated extended colour ends the sequence. -/
+def applySgrAux : Pend → Rendition → List Nat → Rendition
+  | _, r, [] => r
+  | .none, r, p :: rest =>
+    if p = 38 ∨ p = 48 then applySgrAux (.ext p) r rest else applySgrAux .none (applyOne r p) rest
+  | .ext l, r, p :: rest =>
+    if p = 5 then applySgrAux (.idx l) r rest
+    else if p = 2 then applySgrAux (.rgb1 l) r rest
+    else r
+  | .idx l, r, n :: rest => applySgrAux .none (setLayer r l (.idx n)) rest
+  | .rgb1 l, r, a :: rest => applySgrAux (.rgb2 l a) r rest
+  | .rgb2 l a, r, b :: rest => applySgrAux (.rgb3 l a b) r rest
+  | .rgb3 l a b, r, c :: rest => applySgrAux .none (setLayer r l (.rgb a b c)) rest
+
+def applySgr (r : Rendition) (ps : List Nat) : Rendition := applySgrAux .none r ps
 
 inductive Mode where
   | ground
